@@ -12,15 +12,17 @@ CLUSTER = 'D'
 GEN_UNITS = ['quaternion', 'kabsch', 'rotate', 'superpose_glue']
 PIN_TARGETS = ['PdbVerif.Pins.D']
 RULE = ('centred point-set pairs, n in {1,2,3,4,10,50}, families generic / coplanar / collinear / single point / identical / '
-        'mirror image (negative-determinant covariance) / near-equal singular values / noisy rigid copy, coordinate scales '
-        '0.01 .. 1000, each through the real get_rotation_matrix_Kabsh and get_rotation_matrix_quaternion (NumPy\'s own svd / eig '
+        'mirror image (negative-determinant covariance) / near-equal singular values / noisy rigid copy / exactly rank-deficient '
+        'covariance (three points incl. a backbone N-CA-C triple, two points, planar n = 4 and 10; rigid copies and mirror images, both '
+        'orientations of the pair), coordinate scales '
+        '0.01 .. 1000, each through the real get_rotation_matrix_Kabsh and get_rotation_matrix_quaternion (NumPy\'s own svd / eigh '
         'factors recorded during the call and handed to the Lean model as exact rationals), plus get_rotation_matrix dispatch, '
         'superpose_selection, and a stream of uncentred / unequally sized / wrong-method inputs. A case is non-trivial when distinct '
         'by (operation, family, n, scale decade, sign of det of the covariance, accepted/rejected).')
 ASSUMPTIONS = ['np.linalg.svd returns A = V diag(s) Wt with V, Wt orthogonal and s sorted non-negative (SvdContract); checked on every sampled case to 1e-9 relative',
-               'np.linalg.eig returns for the symmetric key matrix a unit eigenvector for its largest eigenvalue at index argmax(l) (EigContract); eigen-residual, unit length and maximality (against np.linalg.eigh) checked on every sampled case',
+               'np.linalg.eigh returns for the symmetric key matrix an orthogonal eigendecomposition, so that the column at argmax(l) is a unit eigenvector for the largest eigenvalue (EigContract, via eigContract_of_decomposition); decomposition defect, eigen-residual, unit length and maximality (against the non-symmetric solver np.linalg.eigvals) checked on every sampled case',
                'floating-point evaluation of the kernels stays within 1e-9 (relative to the coordinate scale) of the exact-rational model: sampled, not proved']
-TRUSTED = ['the recording wrappers around np.linalg.svd / np.linalg.eig used to capture the factors the real code saw']
+TRUSTED = ['the recording wrappers around np.linalg.svd / np.linalg.eigh / np.linalg.eig used to capture the factors the real code saw']
 
 TOL = Fraction(1, 10**9)
 NS = [1, 2, 3, 4, 10, 50]
@@ -102,6 +104,35 @@ def cases(ctx):
                 P, Q = make_pair(g, fam, n, scale)
                 for op in ('kabsch', 'quat'):
                     out.append({'op': op, 'P': pts(P), 'Q': pts(Q), 'family': fam, 'n': n, 'scale_in': scale, 'eps': rat(EPS)})
+    # exactly rank-deficient covariance (det A = 0 in exact arithmetic, rounding noise in floats): three generic points (always
+    # coplanar once centred; incl. an N, CA, C backbone triple), two points, planar n >= 4; the pair is a rigidly displaced copy or
+    # a mirror image, with and without noise, in both orientations (P, Q) and (Q, P).  The reflection decision must come from
+    # det(W V^T), never from the (meaningless) sign of det A.
+    backbone = np.array([[0.0, 0.0, 0.0], [1.458, 0.0, 0.0], [2.009, 1.420, 0.0]])
+    for rep in range(ctx.scale(4, 40)):
+        for shape in ('three', 'backbone', 'two', 'planar4', 'planar10'):
+            for relation in ('rigid', 'mirror', 'rigid_noisy', 'mirror_noisy'):
+                scale = 10 ** g.uniform(-2, 3) if rep % 2 else 1.0
+                if shape == 'three':
+                    P = g.normal(size=(3, 3))
+                elif shape == 'backbone':
+                    P = backbone @ rand_rot(g).T
+                elif shape == 'two':
+                    P = g.normal(size=(2, 3))
+                else:
+                    m = 4 if shape == 'planar4' else 10
+                    P = g.normal(size=(m, 3)); P[:, 2] = 0; P = P @ rand_rot(g).T
+                Q = P * np.array([1, 1, -1]) if relation.startswith('mirror') else P.copy()
+                Q = Q @ rand_rot(g).T + g.normal(size=3)
+                if relation.endswith('noisy'):
+                    Q = Q + 0.02 * g.normal(size=Q.shape)
+                    if shape.startswith('planar'):          # keep the target set planar as well
+                        Qc = Q - Q.mean(0); _, _, Vt = np.linalg.svd(Qc); Q = Qc - np.outer(Qc @ Vt[2], Vt[2])
+                P, Q = centre(P * scale), centre(Q * scale)
+                for A_, B_ in ((P, Q), (Q, P)):
+                    for op in ('kabsch', 'quat') if rep == 0 else ('kabsch',):
+                        out.append({'op': op, 'P': pts(A_), 'Q': pts(B_), 'family': f'rankdef-{shape}-{relation}', 'n': len(P),
+                                    'scale_in': scale, 'eps': rat(EPS)})
     # every scale decade for the two families the tests never reach
     for fam in ('mirror', 'collinear', 'generic'):
         for scale in (0.01, 0.1, 1.0, 10.0, 100.0, 1000.0):
@@ -155,9 +186,9 @@ def cases(ctx):
 def corpus(ctx):
     """minimised past failures, replayed first on every run"""
     out = []
-    # C06 finding (2026-09-29): collinear pair on which np.linalg.eig returns a complex-conjugate eigenvector pair for the
-    # (numerically double) top eigenvalue of the symmetric key matrix; the quaternion kernel drops the imaginary parts entry by
-    # entry and returns a nearly singular matrix (det 0.019, residual 17.2 against the optimum 0.733)
+    # regression (fixed in /repo 75916a0): collinear pair on which np.linalg.eig returned a complex-conjugate eigenvector pair for
+    # the (numerically double) top eigenvalue of the symmetric key matrix; the quaternion kernel dropped the imaginary parts entry
+    # by entry and returned a nearly singular matrix (det 0.019, residual 17.2 against the optimum 0.733). Must pass with eigh.
     P, Q = [[-3, -2, 0], [3, 2, 0]], [[0, 0, -3], [0, 0, 3]]
     for op in ('quat', 'kabsch'):
         out.append({'op': op, 'P': pts(P), 'Q': pts(Q), 'family': 'corpus-collinear', 'n': 2, 'scale_in': 1.0, 'eps': rat(EPS)})
@@ -168,7 +199,7 @@ def search_cases(ctx):
     """mirror-image / degenerate families (used when a proof obligation or the correspondence breaks)"""
     g = nprng(ctx.rng)
     out = []
-    for fam in ('mirror', 'collinear', 'coplanar', 'single', 'identical', 'near_equal_sv'):
+    for fam in ('mirror', 'collinear', 'coplanar', 'single', 'identical', 'near_equal_sv', 'generic'):
         for n in NS:
             for scale in (0.01, 1.0, 1000.0):
                 for _ in range(ctx.scale(2, 10)):
@@ -184,9 +215,9 @@ def search_cases(ctx):
 
 @contextlib.contextmanager
 def recording():
-    """record what np.linalg.svd / np.linalg.eig return while the real code runs"""
+    """record what np.linalg.svd / np.linalg.eigh (or eig, should the code go back to it) return while the real code runs"""
     rec = {}
-    svd0, eig0 = np.linalg.svd, np.linalg.eig
+    svd0, eig0, eigh0 = np.linalg.svd, np.linalg.eig, np.linalg.eigh
 
     def svd(a, *args, **kw):
         r = svd0(a, *args, **kw)
@@ -197,11 +228,16 @@ def recording():
         r = eig0(a, *args, **kw)
         rec['eig'] = (np.array(a), [np.array(x) for x in r])
         return r
-    np.linalg.svd, np.linalg.eig = svd, eig
+    def eigh(a, *args, **kw):
+        r = eigh0(a, *args, **kw)
+        rec['eig'] = (np.array(a), [np.array(x) for x in r])
+        rec['eig_routine'] = 'eigh'
+        return r
+    np.linalg.svd, np.linalg.eig, np.linalg.eigh = svd, eig, eigh
     try:
         yield rec
     finally:
-        np.linalg.svd, np.linalg.eig = svd0, eig0
+        np.linalg.svd, np.linalg.eig, np.linalg.eigh = svd0, eig0, eigh0
 
 
 def horn_optimum(P, Q):
@@ -225,7 +261,13 @@ def obs_factors(rec):
         o['eig_complex'] = bool(np.iscomplexobj(l) or np.iscomplexobj(U))
         l, U = np.real(l), np.real(U)
         o['eig'] = [[rat(l[k]), [rat(x) for x in U[:, k]]] for k in range(4)]
-        o['eigh_max'] = rat(float(np.linalg.eigvalsh(rec['eig'][0])[-1]))
+        F = rec['eig'][0]
+        fs = float(np.max(np.abs(F))) or 1.0
+        # the full decomposition contract (Proofs.Quat.eigContract_of_decomposition): F U = U diag(l), U orthogonal
+        o['decomp_defect'] = float(max(np.max(np.abs(F @ U - U * l)) / fs, np.max(np.abs(U.T @ U - np.eye(4)))))
+        # independent value of the largest eigenvalue: the non-symmetric solver
+        o['eigh_max'] = rat(float(np.max(np.real(np.linalg.eigvals(F)))))
+        o['eig_routine'] = rec.get('eig_routine', 'eig')
     return o
 
 
@@ -274,7 +316,7 @@ def impl(ctx, c):
 def driver_line(c):
     d = {k: v for k, v in c.items() if k not in ('family', 'n', 'scale_in', 'obs', 'self')}
     for k, v in c.get('obs', {}).items():
-        if k not in ('eig_complex', 'eigh_max'):
+        if k not in ('eig_complex', 'eigh_max', 'decomp_defect', 'eig_routine'):
             d[k] = v
     return d
 
@@ -325,7 +367,9 @@ def agree_model(c, out, model):
         fscale = max(abs(unrat(p[0])) for p in obs['eig']) or Fraction(1)
         if unrat(ct['residual']) > TOL * max(fscale, 1) or unrat(ct['unit']) > TOL or not ct['isMax']:
             return f'NumPy eig outside its contract: {ct}'
-        if unrat(ct['lambda']) < unrat(obs['eigh_max']) - TOL * max(fscale, 1):
+        if obs['decomp_defect'] > 1e-9:
+            return f'NumPy {obs["eig_routine"]} is not an orthogonal eigendecomposition (defect {obs["decomp_defect"]:.3e})'
+        if unrat(ct['lambda']) < unrat(obs['eigh_max']) - Fraction(1, 10**8) * max(fscale, 1):
             return f'eigenvalue chosen {ct["lambda"]} is not the largest ({obs["eigh_max"]})'
     return True
 
